@@ -1,6 +1,6 @@
 """C01 — Laplace boundary operators satisfy the Calderon identities on any polyhedron."""
 
-from .. import duffy, rules, singular
+from .. import duffy, grideq, rules, singular
 
 LEVEL = "other"
 TECHNIQUE = "symbolic extraction of the regular/singular Galerkin assemblers against integrand specs, near/far partition and singular-rule table agreement lints, exact Duffy change-of-variables proof"
@@ -29,6 +29,7 @@ TYPES = ("default_scalar", "laplace_hypersingular")
 
 def run(ctx):
     rules.elements_adjacent_complete(ctx)
+    grideq.grid_identity(ctx)
     rules.assembler_integrands(ctx, types=TYPES)
     rules.launch_sites(ctx, which=("dense", "singular"))
     singular.check_offsets(ctx)
